@@ -1191,9 +1191,11 @@ impl Task {
                 });
 
                 if is_updated {
-                    // the holder changed without an event of its own: keep its stored row current
+                    // the holder changed without an event of its own: keep its stored row current.
+                    // Every enclosing task that holds the name is updated, not only the outermost:
+                    // a step starts with a copy of the outputs of its predecessor, and a lookup
+                    // (`find`, `$get`) takes the innermost copy
                     let _ = self.runtime.cache().upsert(t);
-                    break;
                 }
             }
         }
